@@ -21,7 +21,7 @@ func propC19() Property {
 		ID: "C19",
 		Explanation: "R1 (undefined references refused): in the dictionary builder, whenever every lookup of a referenced field/component name on a path missed, the path returns a non-nil error; no plain (non comma-ok) lookup result is dereferenced. " +
 			"R2 (vocabulary agreement): the element names and attributes used at each level of the nine shipped specs are exactly those bound by the XML* struct tags (an attribute the structs do not bind is silently dropped; a tag that occurs in no spec is a typo that drops data). " +
-			"R3 (required propagation guards): a component's/group's required fields are taken from a part only under that part's own Required(); a message's RequiredTags only under allowRequired ∧ field.Required(), where allowRequired is the enclosing component's Required(); part lists are appended in declaration order. R4: part-type exhaustiveness and the cycle guard (C09-K4, K5). R5 (errors surface): in the dictionary package no return hands back a nil error on a path whose condition establishes that an error result of a call was non-nil (a shadowed `err` after `break`, a forgotten assignment): the refusal R1 proves at the leaf must reach the caller of Parse. R6 (immutability): a store into a field of a FieldDef / ComponentType / MessageDef / FieldType targets an object allocated in the same function (or the dictionary under construction in the builder); definitions reached through a shared pointer are never adjusted. R7: the function that processes a field part of a message enters it into MessageDef.Fields on every path. R5 also requires that the branch taken when an in-package call failed does not go round the enclosing loop again. R6 also covers slices: a definition under construction never adopts, or appends into, a slice handed out by another definition. R8: every *FieldDef the builder returns is constructed for that occurrence (constructor call chain ending in a fresh allocation), never looked up by name.",
+			"R3 (required propagation guards): a component's/group's required fields are taken from a part only under that part's own Required(); a message's RequiredTags only under allowRequired ∧ field.Required(), where allowRequired is the enclosing component's Required(); part lists are appended in declaration order. R4: part-type exhaustiveness and the cycle guard (C09-K4, K5). R5 (errors surface): in the dictionary package no return hands back a nil error on a path whose condition establishes that an error result of a call was non-nil (a shadowed `err` after `break`, a forgotten assignment): the refusal R1 proves at the leaf must reach the caller of Parse. R6 (immutability): a store into a field of a FieldDef / ComponentType / MessageDef / FieldType targets an object allocated in the same function (or the dictionary under construction in the builder); definitions reached through a shared pointer are never adjusted. R7: the function that processes a field part of a message enters it into MessageDef.Fields on every path. R5 also requires that the branch taken when an in-package call failed does not go round the enclosing loop again. R6 also covers slices: a definition under construction never adopts, or appends into, a slice handed out by another definition. R8: every *FieldDef the builder returns is constructed for that occurrence (constructor call chain ending in a fresh allocation), never looked up by name. R9: the method that collects the tags below a field definition calls itself on the members it ranges over; the enumeration table is built whenever at least one value is listed.",
 		NotDecided: "that the flattened field sets equal the specification's for every message (a semantic comparison over ~900 definitions), enumeration values.",
 		Rules: []RuleDef{
 			{ID: "C19-R1", Desc: "missed name lookups end in an error", Min: 3, Run: c19R1},
@@ -32,6 +32,7 @@ func propC19() Property {
 			{ID: "C19-R6", Desc: "shared definitions are never mutated after construction", Min: 5, Run: c19R6},
 			{ID: "C19-R7", Desc: "every field part is entered into the message's field table", Min: 1, Run: c19R7},
 			{ID: "C19-R8", Desc: "field/group definitions are constructed per occurrence, not taken from a by-name cache", Min: 2, Run: c19R8},
+			{ID: "C19-R9", Desc: "child tags collected recursively; enumerations built from one value on", Min: 2, Run: c19R9},
 		},
 	}
 }
@@ -606,6 +607,30 @@ func c19R6(c *Ctx) {
 			n++
 			bo := p.Origin(ai.Base)
 			shared := false
+			// a field of an object allocated in this function is the function's own slice
+			own := false
+			if ld, ok := stripConv(ai.Base).(*ssa.UnOp); ok {
+				if fa, ok := ld.X.(*ssa.FieldAddr); ok {
+					base := fa.X
+					for {
+						if f2, ok := base.(*ssa.FieldAddr); ok {
+							base = f2.X
+							continue
+						}
+						break
+					}
+					if _, isAl := base.(*ssa.Alloc); isAl {
+						own = true
+					}
+					if par, isPar := base.(*ssa.Parameter); isPar && len(fn.Params) > 0 && par == fn.Params[0] && fn.Signature.Recv() != nil {
+						own = true // a method filling its own receiver under construction
+					}
+				}
+			}
+			if own {
+				c.OK(FuncName(fn), p.InstrPos(in), "append to a slice field of the object under construction")
+				return
+			}
 			bo.Mentions(func(x *Org) bool {
 				if x.Kind == "call" && x.Callee != nil && p.InModule(x.Callee) && !returnsFreshSlice(x.Callee) {
 					shared = true
